@@ -142,6 +142,12 @@ func rulePARPUSH(c *Ctx, r *Report) {
 			if !isStack {
 				// token push onto nonTerminals: needs the twin push onto stack in the same block
 				tokenPushes++
+				if _, isHelper := c.pushHelpers(pr)[fs.fn]; isHelper {
+					// one push per call of the helper
+					if sites, _ := c.privateHelper(fs.fn); len(sites) > 1 {
+						tokenPushes += len(sites) - 1
+					}
+				}
 				twin := false
 				for _, in := range st.Block().Instrs {
 					if s2, ok := in.(*ssa.Store); ok {
@@ -267,6 +273,48 @@ func (c *Ctx) isStartToken(fn *ssa.Function, lit ssa.Value) bool {
 	return false
 }
 
+// pushHelpers: private functions of the root package whose pushes onto parser.nonTerminals all append one of their
+// own parameters (`func (p *parser) pushToken(tok lex.Token)`): a call of such a helper is a push of the argument.
+// Maps the helper to the index of that parameter.
+func (c *Ctx) pushHelpers(pr *ParserRoles) map[*ssa.Function]int {
+	out := map[*ssa.Function]int{}
+	bad := map[*ssa.Function]bool{}
+	for _, fs := range c.storesToFields(pr.NTF) {
+		if fs.fn == pr.ParseLoop || fs.fn == pr.Parse || fs.fn == pr.ReduceM || fnPkgPath(fs.fn) != pkgRoot {
+			continue
+		}
+		_, elem, ok := c.appendOne(c.resolve(fs.st.Val, nil))
+		if !ok {
+			bad[fs.fn] = true
+			continue
+		}
+		prm, isParam := c.resolve(elem, nil).(*ssa.Parameter)
+		if !isParam {
+			bad[fs.fn] = true
+			continue
+		}
+		idx := -1
+		for i, q := range fs.fn.Params {
+			if q == prm {
+				idx = i
+			}
+		}
+		if prev, seen := out[fs.fn]; seen && prev != idx {
+			bad[fs.fn] = true
+		}
+		out[fs.fn] = idx
+	}
+	for f := range bad {
+		delete(out, f)
+	}
+	for f := range out {
+		if _, private := c.privateHelper(f); !private {
+			delete(out, f)
+		}
+	}
+	return out
+}
+
 // PUSH-STATE (C07): typestate over the parse loop — a token may be pushed onto nonTerminals only if,
 // on every path, the shift predicate returned true for that token since the last reduction.
 func rulePUSHSTATE(c *Ctx, r *Report) {
@@ -278,11 +326,12 @@ func rulePUSHSTATE(c *Ctx, r *Report) {
 	}
 	lexPeek := c.method(pkgLex, "Lexer", "Peek")
 	type push struct {
-		st  *ssa.Store
+		st  ssa.Instruction
 		tok ssa.Value
 		fn  *ssa.Function
 	}
 	var pushes []push
+	helpers := c.pushHelpers(pr)
 	// the typestate is run on the parse loop and on every other function of the package that pushes onto
 	// nonTerminals (a helper the injection was moved into); a helper starts with nothing Checked
 	var fns []*ssa.Function
@@ -290,6 +339,9 @@ func rulePUSHSTATE(c *Ctx, r *Report) {
 	for _, fs := range c.storesToFields(pr.NTF) {
 		if fs.fn == pr.ParseLoop || fs.fn == pr.Parse || fnPkgPath(fs.fn) != pkgRoot {
 			continue
+		}
+		if _, summarised := helpers[fs.fn]; summarised {
+			continue // its calls are pushes of the argument, judged where they stand
 		}
 		if _, _, ok := c.appendOne(c.resolve(fs.st.Val, nil)); !ok {
 			continue
@@ -340,14 +392,27 @@ func rulePUSHSTATE(c *Ctx, r *Report) {
 				cur[k] = true
 			}
 			for _, ins := range b.Instrs {
+				var elem ssa.Value
 				switch x := ins.(type) {
 				case *ssa.Call:
-					if f := x.Call.StaticCallee(); f != nil && mut[f] {
-						cur = state{}
+					if f := x.Call.StaticCallee(); f != nil {
+						if pi, isPush := helpers[f]; isPush && pi < len(x.Call.Args) {
+							elem = x.Call.Args[pi]
+						} else if mut[f] {
+							cur = state{}
+						}
 					}
 				case *ssa.Store:
 					if fa, ok := x.Addr.(*ssa.FieldAddr); ok && fieldVar(fa.X.Type(), fa.Field) == pr.NTF {
-						if _, elem, ok := c.appendOne(c.resolve(x.Val, nil)); ok {
+						if _, e, ok := c.appendOne(c.resolve(x.Val, nil)); ok {
+							elem = e
+						}
+					}
+				}
+				if elem != nil {
+					x := ins
+					{
+						{
 							tok := c.resolve(elem, nil)
 							if record {
 								k := c.key(tok, nil)
@@ -691,7 +756,22 @@ func ruleVALIDATEDOM(c *Ctx, r *Report) {
 	paths, _ := c.enumPaths(pr.Parse, 2000)
 	n := 0
 	for _, p := range paths {
-		if p.Ret == nil || len(p.Ret.Results) != 2 || !isNilConst(c.resolve(p.Ret.Results[1], p.Env)) {
+		if p.Ret == nil || len(p.Ret.Results) != 2 {
+			continue
+		}
+		// a success return: the error result is the nil constant, or a value this path has found to be nil
+		// (single-exit style: `if err == nil { err = Validate(x) }; if err == nil { e = x }; return e, err`)
+		ev := c.resolve(p.Ret.Results[1], p.Env)
+		success := isNilConst(ev)
+		if !success {
+			ek := c.key(ev, p.Env)
+			for _, a := range p.Atoms {
+				if a.Kind == "nil" && a.Pos && a.Subj == ek {
+					success = true
+				}
+			}
+		}
+		if !success {
 			continue
 		}
 		n++
@@ -700,7 +780,11 @@ func ruleVALIDATEDOM(c *Ctx, r *Report) {
 		validated, fromLoop := false, false
 		for _, a := range p.Atoms {
 			if a.Kind == "nil" && a.Pos {
-				if call, ok := c.resolve(a.Src.(*ssa.BinOp).X, p.Env).(*ssa.Call); ok && validate != nil && call.Call.StaticCallee() == validate {
+				bo, isBO := a.Src.(*ssa.BinOp)
+				if !isBO {
+					continue
+				}
+				if call, ok := c.resolve(bo.X, p.Env).(*ssa.Call); ok && validate != nil && call.Call.StaticCallee() == validate {
 					if c.key(call.Call.Args[0], p.Env) == res {
 						validated = true
 					}
@@ -755,7 +839,14 @@ func ruleIMPLANDOPERAND(c *Ctx, r *Report) {
 			if st, ok := in.(*ssa.Store); ok {
 				if fa, ok := st.Addr.(*ssa.FieldAddr); ok && fieldVar(fa.X.Type(), fa.Field) == pr.NTF {
 					if _, elem, ok := c.appendOne(c.resolve(st.Val, nil)); ok {
-						if c.localTokenTyp(c.resolve(elem, nil)) != "" {
+						ev := c.resolve(elem, nil)
+						if prm, isParam := ev.(*ssa.Parameter); isParam && p.Env != nil {
+							// the push stands in an inlined helper: the token is the caller's argument
+							if bv, bound := p.Env.par[prm]; bound {
+								ev = c.resolve(bv, nil)
+							}
+						}
+						if c.localTokenTyp(ev) != "" {
 							injected = true
 						}
 					}
